@@ -1,3 +1,4 @@
+import Varint.Lemmas.BP128
 import Varint.Lemmas.Dict
 import Varint.Lemmas.RLEH
 import Varint.Lemmas.Group
@@ -127,6 +128,13 @@ theorem dict_small_cap_fails (xs : List Nat) (hx : ∀ x ∈ xs, x < 2 ^ 64) (hn
     (h : Dict.enc xs ≠ []) (rest : List Nat) (cap : Nat) (hc : cap < xs.length) :
     Dict.dec (Dict.enc xs ++ rest) (some cap) = none :=
   Dict.dec_enc_small_cap xs hx hn h rest cap hc
+
+
+/-- BP128, all four decoders, any bytes: at most `maxCount` values are stored -/
+theorem bp128_trace_lt_cap (bs : List Nat) (cap : Nat) (vs : List Nat) :
+    (BP128.dec32 bs cap = some vs → vs.length ≤ cap) ∧ (BP128.dec64 bs cap = some vs → vs.length ≤ cap) ∧
+    (BP128.decD32 bs cap = some vs → vs.length ≤ cap) ∧ (BP128.decD64 bs cap = some vs → vs.length ≤ cap) :=
+  ⟨BP128.dec32_cap bs cap vs, BP128.dec64_cap bs cap vs, BP128.decD32_cap bs cap vs, BP128.decD64_cap bs cap vs⟩
 
 /-- dictionary (DecodeInto), any bytes: at most `maxValues` values are stored (shared with C14) -/
 theorem dict_trace_lt_cap (bs : List Nat) (c : Nat) (vs : List Nat)
